@@ -55,7 +55,7 @@ def run(ctx):
         ctx.run_bin("c39", ["replay", "--in", pp, "--out", tr])
         total += judge(ctx, "replay " + cfg, tr, stats)
     for k in ("left_off", "extended", "capped", "ignored"):
-        if stats[k] == 0:
+        if stats[k] == 0 and not ctx.violations:
             raise vlib.ToolError("vacuity: no replayed model path of class %s" % k)
     # 3. random runs: random configuration, 2..9 participants, clock running past the end
     tr = ctx.path("random.ndjson")
